@@ -588,6 +588,184 @@ pub fn hist<F: BoolExt>(args: &Args) {
     write_summary(&dir, &format!("hist-{}", F::KIND), &out, json!({"ops":ops_done}));
 }
 
+/// Re-execute the calls of recorded histories (trace files written by other
+/// drivers) on managers with a different configuration (cache capacity,
+/// thread count, build features) and record a new trace.  The results of the
+/// two executions are compared by TraceConfig.tla (C06, C20).
+pub fn replay<F: BoolExt>(args: &Args) {
+    use std::io::BufRead;
+    let dir = args.get("out", "/verif/out/tmp");
+    let input = args.get("in", "");
+    let cache_override = args.0.get("cache").map(|c| c.parse::<usize>().unwrap());
+    let thr_override = args.0.get("threads").map(|c| c.parse::<u32>().unwrap());
+    let split = args.0.get("split").map(|c| c.parse::<u32>().unwrap());
+    let mut out = TraceOut::new(&dir, &format!("replay-{}", F::KIND), args.num("chunk", 1500) as usize);
+    let mut events: Vec<Value> = Vec::new();
+    for path in input.split(',').filter(|p| !p.is_empty()) {
+        let f = File::open(path).unwrap_or_else(|_| panic!("harness: cannot open {path}"));
+        for line in std::io::BufReader::new(f).lines() {
+            events.push(serde_json::from_str(&line.unwrap()).unwrap());
+        }
+    }
+    let mut i = 0;
+    let mut ops = 0u64;
+    while i < events.len() {
+        assert_eq!(events[i]["ev"], "reset", "harness: history must start with reset");
+        let r = &events[i];
+        let cap = r["cap"].as_u64().unwrap() as usize;
+        let cache = cache_override.unwrap_or(r["cache"].as_u64().unwrap() as usize);
+        let thr = thr_override.unwrap_or(r["thr"].as_u64().unwrap() as u32);
+        let tag = r["tag"].as_str().unwrap_or("");
+        let mut s: Session<F> = Session::new_tagged(&mut out, cap, cache, thr, tag);
+        if let Some(d) = split {
+            s.mref.with_manager_shared(|m| F::set_split_depth(m, Some(d)));
+        }
+        // slot numbers are allocated in the same order as in the recording
+        let mut pending: std::collections::HashMap<usize, F> = Default::default();
+        let mut substs: std::collections::HashMap<u64, (Subst<F>, Vec<usize>)> = Default::default();
+        let mut released: std::collections::HashSet<usize> = Default::default();
+        let mut stash: Option<F> = None;
+        i += 1;
+        while i < events.len() && events[i]["ev"] != "reset" {
+            let e = events[i].clone();
+            i += 1;
+            if s.dead {
+                continue;
+            }
+            let sl = |v: &Value| v.as_u64().unwrap() as usize;
+            match e["ev"].as_str().unwrap() {
+                "add_vars" => s.add_vars(e["k"].as_u64().unwrap() as u32),
+                "reorder" => {
+                    let req: Vec<u32> = e["req"].as_array().unwrap().iter().map(|x| x.as_u64().unwrap() as u32).collect();
+                    s.reorder(&req)
+                }
+                "gc" => {
+                    s.gc();
+                }
+                "obs" => s.obs(),
+                "snap" => s.snap(),
+                "clone" => {
+                    if e["ext"].as_bool().unwrap_or(false) {
+                        let (h, f) = s.hold_ext(sl(&e["a"]));
+                        pending.insert(h, f);
+                    } else {
+                        s.clone_h(sl(&e["a"]));
+                    }
+                }
+                "drop" => {
+                    let a = sl(&e["a"]);
+                    if s.ext.contains_key(&a) {
+                        s.release_ext(a);
+                        released.insert(a);
+                        pending.remove(&a);
+                        let done: Vec<u64> = substs
+                            .iter()
+                            .filter(|(_, (_, hs))| hs.iter().all(|h| released.contains(h)))
+                            .map(|(k, _)| *k)
+                            .collect();
+                        for k in done {
+                            substs.remove(&k);
+                        }
+                    } else {
+                        s.drop_h(a);
+                    }
+                }
+                "cofnone" => cofactors_of(&mut s, sl(&e["a"])),
+                "op" => {
+                    ops += 1;
+                    let op = e["op"].as_str().unwrap().to_string();
+                    let a: Vec<usize> = e["a"].as_array().unwrap().iter().map(sl).collect();
+                    let v = e["v"].as_u64().unwrap_or(0) as u32;
+                    match op.as_str() {
+                        "t" | "f" => {
+                            s.konst(op == "t");
+                        }
+                        "var" => {
+                            s.var(v);
+                        }
+                        "not_var" => {
+                            s.not_var(v);
+                        }
+                        "not" => {
+                            s.not(a[0]);
+                        }
+                        "ite" => {
+                            s.ite(a[0], a[1], a[2]);
+                        }
+                        "exists" | "forall" | "unique" => {
+                            s.op(&op, &a, json!({}), |s| s.get(a[0]).quant(&op, s.get(a[1])));
+                        }
+                        "apply_exists" | "apply_forall" | "apply_unique" => {
+                            let bop = e["bop"].as_str().unwrap().to_string();
+                            let q = op.trim_start_matches("apply_").to_string();
+                            s.op(&op, &a, json!({ "bop": bop }), |s| {
+                                s.get(a[0]).apply_quant(&q, &bop, s.get(a[1]), s.get(a[2]))
+                            });
+                        }
+                        "restrict" => {
+                            s.op(&op, &a, json!({}), |s| s.get(a[0]).restrict(s.get(a[1])));
+                        }
+                        "subst" => {
+                            let sid = e["sid"].as_u64().unwrap();
+                            if !substs.contains_key(&sid) {
+                                let mut vars = Vec::new();
+                                let mut repl = Vec::new();
+                                let mut hs = Vec::new();
+                                for p in e["pairs"].as_array().unwrap() {
+                                    vars.push(p[0].as_u64().unwrap() as u32);
+                                    let h = sl(&p[1]);
+                                    hs.push(h);
+                                    repl.push(pending.remove(&h).expect("harness: ext slot of subst"));
+                                }
+                                substs.insert(sid, (Subst::new(vars, repl), hs));
+                            }
+                            let r = catch(|| s.get(a[0]).subst(&substs[&sid].0));
+                            s.log_result("subst", &a, json!({"pairs": e["pairs"], "sid": sid}), r);
+                        }
+                        "cof_t" => match catch(|| s.get(a[0]).cofactors()) {
+                            Ok(Some((t, el))) => {
+                                s.log_result("cof_t", &a, json!({}), Ok(Ok(t)));
+                                stash = Some(el);
+                            }
+                            Ok(None) => s.out.emit(json!({"ev":"cofnone","a":a[0]})),
+                            Err(p) => {
+                                s.log_result("cof_t", &a, json!({}), Err(p));
+                            }
+                        },
+                        "cof_f" => {
+                            if let Some(el) = stash.take() {
+                                s.log_result("cof_f", &a, json!({}), Ok(Ok(el)));
+                            }
+                        }
+                        "subset0" | "subset1" | "change" => {
+                            s.op(&op, &a, json!({ "v": v }), |s| s.get(a[0]).zvar(&op, v));
+                        }
+                        "union" | "intsec" | "diff" => {
+                            s.op(&op, &a, json!({}), |s| s.get(a[0]).zbin(&op, s.get(a[1])));
+                        }
+                        "singleton" | "empty" | "base" => {
+                            s.op(&op, &[], json!({ "v": v }), |s| F::zconst(&s.mref, &op, v));
+                        }
+                        o if BIN_OPS.contains(&o) => {
+                            s.bin(o, a[0], a[1]);
+                        }
+                        o => panic!("harness: replay of {o} not supported"),
+                    }
+                }
+                "begin" | "rows" | "adopt" | "pick" | "unistat" | "satcount" | "abort" => {
+                    if e["ev"] == "adopt" {
+                        panic!("harness: histories with adopted handles cannot be replayed");
+                    }
+                }
+                x => panic!("harness: replay of event {x} not supported"),
+            }
+        }
+        drop(substs);
+    }
+    out.finish();
+    write_summary(&dir, &format!("replay-{}", F::KIND), &out, json!({"rows":ops,"nontrivial":ops}));
+}
+
 /// all ordered subsets (sequences without repetition) of 0..n
 pub fn ordered_subsets(n: usize) -> Vec<Vec<u32>> {
     fn rec(cur: &mut Vec<u32>, n: usize, out: &mut Vec<Vec<u32>>) {
